@@ -79,8 +79,9 @@ type LoadSpec struct {
 }
 
 type AuxFile struct {
-	Path   string `json:"path"`
-	PkgDir string `json:"pkg_dir"`
+	Path   string   `json:"path"`
+	PkgDir string   `json:"pkg_dir"`
+	For    []string `json:"for,omitempty"`
 }
 
 var reHarnessDirective = regexp.MustCompile(`(?m)^//verif:(\w+)\s*(.*)$`)
